@@ -1,6 +1,7 @@
 package sim
 
 import (
+	"reflect"
 	"context"
 	"encoding/binary"
 	"errors"
@@ -354,7 +355,37 @@ func (m *recStore) counts() (handed, completed int) { return len(m.handed), len(
 // canonical names (DESIGN §2.2). Computed on the parking goroutine from the
 // objects it is about to use anyway; never from arrival order or addresses.
 
-func nameOf(point string, ctx []interface{}) (name string, owner interface{}, attr lockAttr) {
+// lockMarker: the instrumenter appends "\x00lockW"|"\x00lockR", &L to the
+// arguments of a hook point that stands directly in front of L.Lock() / L.RLock().
+func lockMarker(ctx []interface{}) (rest []interface{}, attr lockAttr, lock uintptr) {
+	for i := 0; i+1 < len(ctx); i++ {
+		if m, ok := ctx[i].(string); ok && strings.HasPrefix(m, "\x00lock") {
+			attr = lkW
+			if m == "\x00lockR" {
+				attr = lkR
+			}
+			return ctx[:i], attr, ptrOf(ctx[i+1])
+		}
+	}
+	return ctx, lkNone, 0
+}
+
+// ptrOf: identity of a lock handed over as *sync.Mutex / *sync.RWMutex.
+func ptrOf(v interface{}) uintptr {
+	rv := reflect.ValueOf(v)
+	if rv.Kind() == reflect.Ptr && !rv.IsNil() {
+		return rv.Pointer()
+	}
+	return 0
+}
+
+func nameOf(point string, ctx []interface{}) (name string, owner interface{}, attr lockAttr, lock uintptr) {
+	ctx, mAttr, lock := lockMarker(ctx)
+	defer func() {
+		if mAttr != lkNone {
+			attr = mAttr // what the code really does next beats the table below
+		}
+	}()
 	if len(ctx) > 0 {
 		owner = ctx[0]
 	}
